@@ -46,15 +46,15 @@ func findRule(name string) (RuleDef, bool) {
 }
 
 type violationRecord struct {
-	Property string      `json:"property"`
-	Rule     string      `json:"rule"`
-	Key      string      `json:"key"`
-	Pos      string      `json:"pos"`
-	Status   string      `json:"status"`
-	Msg      string      `json:"msg"`
-	Repo     string      `json:"repo"`
-	Replay   string      `json:"replay_cmd"`
-	RuleDoc  string      `json:"rule_doc"`
+	Property string `json:"property"`
+	Rule     string `json:"rule"`
+	Key      string `json:"key"`
+	Pos      string `json:"pos"`
+	Status   string `json:"status"`
+	Msg      string `json:"msg"`
+	Repo     string `json:"repo"`
+	Replay   string `json:"replay_cmd"`
+	RuleDoc  string `json:"rule_doc"`
 }
 
 func runChecks(m *Model, o Options) int {
@@ -207,24 +207,24 @@ func runProperty(m *Model, o Options, prop string, pd PropDef, known *KnownFile,
 		ev := Evidence{
 			PropertyID: prop, Tier: o.Tier, Seed: 0, Level: "other",
 			Coverage: map[string]any{
-				"explanation":          pd.Explanation,
-				"not_decided":          pd.NotDecided,
-				"obligations":          total,
-				"discharged":           discharged,
-				"evaluations":          total,
-				"distinct_nontrivial":  len(distinct),
-				"rule":                 "one evaluation = one rule instance (rule / function / construct) checked on the current source of " + m.RepoDir + "; instances are distinct by key; trivial (informational) records are not counted",
-				"samples":              samples,
-				"rules":                perRule,
-				"rule_docs":            ruleDocs,
-				"known_findings":       knownMatched,
-				"anchors":              m.AnchorReport(),
-				"analysed":             m.Stats,
-				"call_graph":           map[bool]string{true: "CHA", false: "VTA (initial graph CHA)"}[o.UseCHA],
-				"exhaustive":           true,
-				"checker_cmd":          "rosmarlint -repo " + m.RepoDir + " -prop " + prop + " -tier " + o.Tier,
-				"trusted_base":         []string{"go/types and go/ssa (golang.org/x/tools v0.29.0)", "SQLite semantics of the parsed statement subset", "database/sql: a Tx is bound to one connection", "sync.Mutex"},
-				"unresolved_anchors":   anchorProblems,
+				"explanation":         pd.Explanation,
+				"not_decided":         pd.NotDecided,
+				"obligations":         total,
+				"discharged":          discharged,
+				"evaluations":         total,
+				"distinct_nontrivial": len(distinct),
+				"rule":                "one evaluation = one rule instance (rule / function / construct) checked on the current source of " + m.RepoDir + "; instances are distinct by key; trivial (informational) records are not counted",
+				"samples":             samples,
+				"rules":               perRule,
+				"rule_docs":           ruleDocs,
+				"known_findings":      knownMatched,
+				"anchors":             m.AnchorReport(),
+				"analysed":            m.Stats,
+				"call_graph":          map[bool]string{true: "CHA", false: "VTA (initial graph CHA)"}[o.UseCHA],
+				"exhaustive":          true,
+				"checker_cmd":         "rosmarlint -repo " + m.RepoDir + " -prop " + prop + " -tier " + o.Tier,
+				"trusted_base":        []string{"go/types and go/ssa (golang.org/x/tools v0.29.0)", "SQLite semantics of the parsed statement subset", "database/sql: a Tx is bound to one connection", "sync.Mutex"},
+				"unresolved_anchors":  anchorProblems,
 			},
 			Assumptions: []string{
 				"locks are identified by (struct type, field); instances are merged",
